@@ -1398,6 +1398,12 @@ func processValue(ctx TaggedStructContext, genMethod fp.Set[string], keyTags fp.
 						if r == nil {
 							return %s.Error(%s.StatusBadRequest, "target ptr is nil")
 						}
+						// m shares slices, maps and pointers with *r : decode into a scratch value first,
+						// so that an error leaves the target untouched
+						probe := (%s{}).AsMutable()
+						if err := %s.Unmarshal(b, &probe); err != nil {
+							return err
+						}
 						m := r.AsMutable()
 						err := %s.Unmarshal(b, &m)
 						if err == nil {
@@ -1407,6 +1413,7 @@ func processValue(ctx TaggedStructContext, genMethod fp.Set[string], keyTags fp.
 					}
 				`, valuereceiver,
 					fppk, httppk,
+					valuereceiver, jsonpk,
 					jsonpk,
 				)
 				genMethod = genMethod.Incl("UnmarshalJSON")
